@@ -1,5 +1,6 @@
 import NoteSeqVerif.Model.C10
 import NoteSeqVerif.Model.C10Heap
+import NoteSeqVerif.Model.C10World
 /-! line-protocol driver for C10 (strings travel as `x` + hex of their UTF-8 bytes).
 
 `pc <step> <alter> <k>`
@@ -11,6 +12,9 @@ import NoteSeqVerif.Model.C10Heap
 `clamp <amount> <ns_min> <ns_max> <min> <max>`
 `hist <table> <nobj> (<n> e* <m> fig*)* <nops> (d <i> | t <i> <k> <min> <max> | s <i> <min> <max> <key>)*` — objects and a history
 of deepcopy / transpose / squash over them; answer: after every operation its result and every object
+`world <table> <nE> (<n> e*)* <nF> (<m> fig*)* <nops> (b <e|-> <f|-> | d <i> | t … | s …)*` — the caller's events / figures
+lists, then a history in which `b` builds an object from lists `e` / `f`; answer: after every operation its result, every
+object, and every caller's list
 `<sym>` = `<rootStep> <rootAlter> <kind> <mods> <n> (<type> <degree>)* <hasBass> <bassStep> <bassAlter>`
 `<table>` = `<n> (<text> (U | S <sym>))*` — what the real `_split_chord_symbol` said about each text. -/
 open NSV NSV.Wire NSV.C10
@@ -145,6 +149,20 @@ def showHRes : HRes → String
   | .err e => "err:" ++ e.name
   | .noObject => "no-object"
 
+def pOptNat : P (Option Nat) := do
+  let t ← P.str
+  if t = "-" then pure none else match t.toNat? with
+    | some n => pure (some n)
+    | none => failure
+
+def pWOp : P WOp := do
+  let t ← P.str
+  if t = "b" then do let e ← pOptNat; let f ← pOptNat; pure (.build e f)
+  else if t = "d" then do let i ← P.nat; pure (.obj (.deepcopy i))
+  else if t = "t" then do let i ← P.nat; let k ← P.int; let mn ← P.int; let mx ← P.int; pure (.obj (.transpose i k mn mx))
+  else if t = "s" then do let i ← P.nat; let mn ← P.int; let mx ← P.int; let key ← P.int; pure (.obj (.squash i mn mx key))
+  else failure
+
 def showObj (o : Obj) : String := s!"{showInts o.es} {showList hex o.figs}"
 
 def run (p : P String) (rest : List String) : String :=
@@ -215,6 +233,11 @@ def step (line : String) : String :=
       let tbl ← P.list pEntry; let objs ← P.list pObj; let ops ← P.list pHOp
       let tr := hTrace (splitOf tbl) objs ops
       pure (" || ".intercalate (tr.map (fun r => showHRes r.2 ++ " ; " ++ " | ".intercalate (r.1.map showObj))))) rest
+  | "world" :: rest => run (do
+      let tbl ← P.list pEntry; let evs ← P.list (P.list P.int); let figs ← P.list (P.list pHex); let ops ← P.list pWOp
+      let tr := wTrace (splitOf tbl) ⟨evs, figs, []⟩ ops
+      pure (" || ".intercalate (tr.map (fun r => showHRes r.2 ++ " ; " ++ " | ".intercalate (r.1.heap.map showObj)
+        ++ " ## " ++ " | ".intercalate (r.1.evLists.map showInts) ++ " # " ++ " | ".intercalate (r.1.figLists.map (showList hex)))))) rest
   | "clamp" :: rest => run (do
       let a ← P.int; let lo ← P.int; let hi ← P.int; let mn ← P.int; let mx ← P.int
       pure s!"ok {Gen.clampTranspose a lo hi mn mx}") rest
